@@ -49,6 +49,26 @@ CLAIMS = {
    design_ref="7.13",
    note=BASE_NOTE + "A-sched (a runnable main thread reaches set() within the 1 s window) is an assumption built into the model's time-out rule and the harness's virtual clock. Python's exec/compile of the body are real but not modelled.",
    technique="Coq invariant proof over a small LTS (receiver/main/completion event) + scheduler-driven differential on the real gateway pair"),
+ "C02": dict(
+   text="Theorem (Coq, invariant over ALL interleavings of peer sends/closes, the receiver thread, any number of consumer threads calling receive(), setcallback, channel creation and garbage collection, unbounded): for every channel id on which the receiving side dropped nothing, items obtained by consumers ++ queued items ++ in-flight items = the items sent on that id, in order -- no loss, duplicate, reordering or cross-channel delivery. Tie: regenerated facts (receiver handles each message under _receivelock, setcallback body entirely under it, shapes of receive/_local_receive/_local_close, send serialises before writing), step-by-step differential of the model's transition function against the real ChannelFactory/Channel on random operation sequences, and generated channel programs on a real Gateway/WorkerGateway pair under a deterministic scheduler with monitors for the property itself.",
+   design_ref="7.7", note=BASE_NOTE + "Assumed: each shared access between two synchronisation calls is atomic (GIL) -- the model's step granularity (one handled frame / one queue get / one put-back / one setcallback under the receive lock, justified by the regenerated lock-region facts); frame integrity is C08, item encoding C01. Local Channel.close() and the sending side are exercised by the harness, not part of the Coq model. Connection loss is C04.",
+   technique="Coq invariant proof over a channel LTS (7-clause invariant, 8 step rules) + facts on lock regions + step differential + scheduler-driven programs on the real gateway pair"),
+ "C03": dict(
+   text="Theorems (Coq, same LTS, all interleavings, any number of concurrent receivers): every item queue is data followed only by ENDMARKERs (data always before EOF); once a channel is receive-closed an ENDMARKER is in its queue or in the hand of a receiver that is putting it back, so EOFError is persistent and reaches every receiver; a receive-closed channel is unregistered, so nothing is enqueued afterwards. Tie: facts (receive blocks in get(timeout=timeout), re-puts the ENDMARKER before raising; _local_close appends the error before queueing the ENDMARKER, unregisters, then sets the flags), step differential, scheduler-driven programs incl. two concurrent receivers with preemption between get and put-back.",
+   design_ref="7.8", note=BASE_NOTE + "Assumed: each shared access between two synchronisation calls is atomic (GIL) -- the model's step granularity (one handled frame / one queue get / one put-back / one setcallback under the receive lock, justified by the regenerated lock-region facts); frame integrity is C08, item encoding C01. Local Channel.close() and the sending side are exercised by the harness, not part of the Coq model. Connection loss is C04.",
+   technique="Coq invariant proof (queue shape, ENDMARKER conservation across holders) + facts + step differential + scheduler-driven programs"),
+ "C07": dict(
+   text="Theorem (Coq, all interleavings): pending errors plus errors already raised to consumers never exceed the CLOSE_ERROR frames handled for that id (an error is raised at most once, never invented); witness: the first receive meeting the ENDMARKER raises the error, later ones EOFError. Obligations from the source: a raising callback sends CHANNEL_CLOSE_ERROR with the text AND closes the channel locally with that error (the pinned tree did not: fixed, see known_findings.json); error appended before the ENDMARKER. Harness: generated programs where the remote body raises / a callback raises (channel kept or dropped), consumers by receive/iter/callback/waitclose/two receivers: exactly one RemoteError carrying type and message, then EOFError; other channels undisturbed.",
+   design_ref="7.9", note=BASE_NOTE + "Assumed: each shared access between two synchronisation calls is atomic (GIL) -- the model's step granularity (one handled frame / one queue get / one put-back / one setcallback under the receive lock, justified by the regenerated lock-region facts); frame integrity is C08, item encoding C01. Local Channel.close() and the sending side are exercised by the harness, not part of the Coq model. Connection loss is C04.",
+   technique="Coq invariant (error accounting) + facts on the error path + scheduler-driven programs with monitors"),
+ "C10": dict(
+   text="Theorems (Coq, all interleavings): items obtained by receive() before setcallback, those replayed by setcallback and those handed to the callback afterwards are together exactly a prefix of what was sent, in order (same conservation theorem as C02 with callback deliveries in the obtained list); endmarker callbacks fired + registrations still pending = registrations made (each endmarker exactly once, at close); a channel with a callback has no queue (receive and a second setcallback are refused). The whole replay-and-register step is one transition because setcallback's body sits under the receive lock -- a regenerated fact; the seeded change releasing the lock early breaks it and the search finds the reordering. Tie as C02, plus 'callback_mid' programs where items arrive while setcallback replays.",
+   design_ref="7.10", note=BASE_NOTE + "Assumed: each shared access between two synchronisation calls is atomic (GIL) -- the model's step granularity (one handled frame / one queue get / one put-back / one setcallback under the receive lock, justified by the regenerated lock-region facts); frame integrity is C08, item encoding C01. Local Channel.close() and the sending side are exercised by the harness, not part of the Coq model. Connection loss is C04.",
+   technique="Coq invariant proof (conservation incl. callbacks, endmarker counting) + lock-region fact + step differential + scheduler-driven programs"),
+ "C18": dict(
+   text="Theorems (Coq, unbounded): for any number of allocating threads on each side and every interleaving of their read-counter/write-counter steps and of adoptions of peer ids, all ids handed out on the two sides are pairwise distinct (initiator ids odd, worker ids even); witnesses: without the lock two threads get the same id; bumping the counter on adoption collides. Handling the peer's close for an id leaves neither channel nor callback registered, and only new(id)/setcallback register. Tie: facts (new() entirely under _writelock, counter assigned only in __init__ and the fresh-id branch, step 2, start counts 1/2 read from Gateway.__init__ and serve(), channels serialised by id and re-created by new(id), WeakValueDictionary), differential of the id model against two real ChannelFactory objects, programs passing channels over channels in both directions with both tables back to baseline afterwards.",
+   design_ref="7.11", note=BASE_NOTE + "Assumed: each shared access between two synchronisation calls is atomic (GIL) -- the model's step granularity (one handled frame / one queue get / one put-back / one setcallback under the receive lock, justified by the regenerated lock-region facts); frame integrity is C08, item encoding C01. Local Channel.close() and the sending side are exercised by the harness, not part of the Coq model. Connection loss is C04.",
+   technique="Coq invariant proof (parity, monotone counter, lock => NoDup) + facts + differential + scheduler-driven programs"),
 }
 
 REASON_TODO = "not claimed yet: model and theorems for this property are not built yet in this development (see DESIGN.md section 12 build order)"
